@@ -259,7 +259,7 @@ func driveC11(c *DriveCtx, r *Rng, k int) {
 		res := c.Exec(clean)
 		var sites []string
 		for _, s := range res.Sim.Sites {
-			for _, m := range []string{"|db.Get|", "|db.Followers|", "|db.Following|", "|db.Liked|", "|db.GetInbox|", "|db.GetOutbox|"} {
+			for _, m := range []string{"|db.Get|", "|db.Followers|", "|db.Following|", "|db.Liked|", "|db.GetInbox|", "|db.GetOutbox|", "|app.GetInbox|", "|app.GetOutbox|"} {
 				if strings.Contains(s, m) {
 					sites = append(sites, s)
 				}
